@@ -100,7 +100,13 @@ func c11Serve(c *c11Conn) {
 }
 
 // redirect target of net.DialTimeout
+var c11DialFail int32 // the next c11DialFail dials are refused (server unreachable)
+
 func VerifC11Dial(network, address string, timeout time.Duration) (net.Conn, error) {
+	if atomic.LoadInt32(&c11DialFail) > 0 {
+		atomic.AddInt32(&c11DialFail, -1)
+		return nil, errors.New("dial: connection refused")
+	}
 	c := &c11Conn{id: len(c11Conns), toClient: make(chan []byte, 4), toServer: make(chan []byte, 4), peerClosed: make(chan struct{})}
 	c11Conns = append(c11Conns, c)
 	go c11Serve(c)
@@ -149,8 +155,10 @@ func bytesContain(b []byte, s string) bool {
 
 var c11Accepted int32
 
-func c11NativeServer() (string, func()) {
-	ln, err := net.Listen("tcp", "127.0.0.1:0")
+func c11NativeServer() (string, func()) { return c11NativeServerAt("127.0.0.1:0") }
+
+func c11NativeServerAt(at string) (string, func()) {
+	ln, err := net.Listen("tcp", at)
 	if err != nil {
 		panic(err)
 	}
@@ -188,10 +196,11 @@ func VerifC11Reconnect() {
 	proto := &c11Proto{}
 	addr, netw := "10.0.0.9:9", "udp"
 	tap := &c11LogTap{}
+	c11DialFail = 0
+	stop := func() {}
 	if !vapi.Engine() {
-		var stop func()
 		addr, stop = c11NativeServer()
-		defer stop()
+		defer func() { stop() }()
 		netw = "tcp"
 		TLOG.SetWriter(tap)
 	}
@@ -212,7 +221,19 @@ func VerifC11Reconnect() {
 	// (an Assume(observed) here once made the whole harness vacuous for a change that never marks
 	// the connection closed; whether or not the close was noticed, the next call must succeed)
 	_ = observed
-	// the next call, issued after the close became observable
+	// optionally the server is unreachable for one connection attempt (restart): that call may fail,
+	// but once the server is reachable again calls must succeed
+	if vapi.Bool("outage") {
+		if vapi.Engine() {
+			atomic.StoreInt32(&c11DialFail, 1)
+			_ = tc.Send(c11Req(8))
+		} else {
+			stop()
+			_ = tc.Send(c11Req(8))
+			_, stop = c11NativeServerAt(addr)
+		}
+	}
+	// the next call, issued after the close became observable (and with the server reachable)
 	vapi.Check(tc.Send(c11Req(9)) == nil, "the call after the close is accepted")
 	// engine: let everything run that can run without any timer firing; natively: a short grace period
 	vapi.Quiesce()
